@@ -137,6 +137,10 @@ func slotsText(ts []slotTok) string {
 			sb.WriteString("\t" + lhs(t) + "invoke i32 @if()\n\t\tto label %exit unwind label %exit\n")
 		case "IV":
 			sb.WriteString("\tinvoke void @vf()\n\t\tto label %exit unwind label %exit\n")
+		case "IVF": // the callee's full (non-variadic) function type spelled out
+			sb.WriteString("\tinvoke void () @vf()\n\t\tto label %exit unwind label %exit\n")
+		case "CF":
+			sb.WriteString("\tcall void () @vf()\n")
 		}
 	}
 	sb.WriteString("exit:\n\tret void\n}\n")
@@ -194,8 +198,10 @@ func buildSlotsAPI(ts []slotTok) *ir.Func {
 		case "I":
 			i := cur.NewInvoke(ifn, nil, exit, exit)
 			setIdent(t, &i.LocalIdent)
-		case "IV":
+		case "IV", "IVF":
 			cur.NewInvoke(vf, nil, exit, exit)
+		case "CF":
+			cur.NewCall(vf)
 		}
 	}
 	exit.Parent = f
